@@ -74,7 +74,17 @@ def expected_axes(rank, scale_axis):
   return tuple(i for i in range(rank) if i != scale_axis)
 
 
-def binary_scenario(alpha_kind, use_01, shape, scale_axis=None, bounds_po2=None, cls="binary"):
+def expected_group(shape, scale_axis, eps):
+  """(shape the tensor is viewed in, axes reduced) for `elements_per_scale` = eps along scale_axis (default: last):
+  the scale axis of extent d is split into d/eps blocks of eps consecutive elements (block index in place of the axis,
+  the position inside the block right after it); one scale per block, i.e. everything but the block index is reduced."""
+  rank = len(shape)
+  a = rank - 1 if scale_axis is None else scale_axis
+  view = tuple(shape[:a]) + (shape[a] // eps, eps) + tuple(shape[a + 1:])
+  return view, tuple(i for i in range(len(view)) if i != a)
+
+
+def binary_scenario(alpha_kind, use_01, shape, scale_axis=None, bounds_po2=None, cls="binary", eps=None):
   def scenario(ip):
     s = Scen()
     ip.aggs = []
@@ -90,6 +100,8 @@ def binary_scenario(alpha_kind, use_01, shape, scale_axis=None, bounds_po2=None,
       kw["alpha"] = alpha_kind
     if scale_axis is not None:
       kw["scale_axis"] = scale_axis
+    if eps is not None:
+      kw["elements_per_scale"] = eps
     lo = hi = None
     if bounds_po2:
       # bounds_po2: True/"both", "min" (only min_po2_exponent configured) or "max"
@@ -138,7 +150,13 @@ def binary_scenario(alpha_kind, use_01, shape, scale_axis=None, bounds_po2=None,
       else:
         # the reduction the code performed over exactly the expected group (the element-wise ops of the library
         # model do not carry extents, so the extent part of the key is whatever the code's reduction recorded)
-        keys = [k for _, _, _, k in ip.aggs if k[0] == "K.mean" and k[2] == axes]
+        if eps is not None:
+          view, axes = expected_group(shape, scale_axis, eps)
+          keys = [k for _, _, _, k in ip.aggs if k[0] == "K.mean" and k[2] == axes and tuple(k[1]) == view]
+          means = [k for kind, _, _, k in ip.aggs if kind == "K.mean"]
+          s.claim("scale_group", bool(means) and all(k[2] == axes and tuple(k[1]) == view for k in means))
+        else:
+          keys = [k for _, _, _, k in ip.aggs if k[0] == "K.mean" and k[2] == axes]
         f = L._AGG_FUNS.get(keys[0]) if keys else None
         if f is None:
           s.claim("scale_ls", False)
@@ -255,6 +273,12 @@ def cases(tier):
         out.append(Case(PROP, B, "alpha-%s_use01-%d_rank%d" % (ak, use_01, len(shape)),
                         binary_scenario(ak, use_01, shape), replay_kind="c04", assumptions=ASSUME, bounds=bounds,
                         lo=-40, hi=40))
+  # requires (documented, asserted by _validate_axis_and_eps): scale_axis is set whenever elements_per_scale is used
+  for ak, shape, sa, eps in (("auto", (3, 4), 1, 2), ("auto_po2", (3, 4), 1, 2), ("auto", (4, 6), 0, 2),
+                             ("auto", (2, 2, 3, 4), 3, 2)):
+    out.append(Case(PROP, B, "alpha-%s_eps%d%s_rank%d" % (ak, eps, "" if sa is None else "_scale_axis%d" % sa, len(shape)),
+                    binary_scenario(ak, False, shape, scale_axis=sa, eps=eps), replay_kind="c04", assumptions=ASSUME,
+                    bounds=bounds, lo=-40, hi=40))
   out.append(Case(PROP, B, "alpha-auto_scale_axis0_rank2", binary_scenario("auto", False, (3, 4), scale_axis=0),
                   replay_kind="c04", assumptions=ASSUME))
   for bk in ("both", "min", "max"):
